@@ -26,7 +26,9 @@ RULE = ("schedules of whole operations (start, try_send / send_blocking from pro
 TRUSTED = [
     "C++ memory model, std::mutex / condition_variable semantics, thread scheduling: the harness executes the "
     "mutex-protected sections one after the other in schedule order (no source hooks); interleavings INSIDE one "
-    "try_send / one push-node evaluation (admission|mark, pop|re-arm) are covered by the proof, not exhibited",
+    "try_send / one push-node evaluation (admission|mark, pop|re-arm) are covered by the proof and by the monitor-only "
+    "real-thread stream, and are exhibited deterministically only when the optional points of "
+    "hooks/push_points_optional.patch are compiled in (the plug-in probes for them and then adds the stream push-points)",
     "data races and lifetime of the sender control block (active_calls / wait_for_quiescence / detach) are not "
     "modelled beyond the closing flag; TSan not run",
     "Value payloads are ints; schema validation (validate()) and the Value/TSOutput layers are trusted",
